@@ -49,7 +49,7 @@ def main():
     needs_file = os.path.join(VERIF, 'seeded', 'needs.json')
     if os.path.exists(needs_file):
         meta['needs'] = json.load(open(needs_file)).get('%s-%s' % (prop, label), '')
-    notes = os.path.join(wt, 'seed', 'NOTES.md')
+    notes = os.path.join(wt, 'seed', 'NOTES2.md' if label in ('C', 'D') else 'NOTES.md')
 
     # ---- 1. confirm in the scratch worktree
     sh('git checkout -- include', wt)
@@ -73,9 +73,18 @@ def main():
         suite_ok = None
         meta['suite_with_change'] = 'not re-run by seedcheck (see agent NOTES.md)'
     # demo with and without the change
-    first = open(demo).read(2000)
+    first = open(demo).read(4000)
     san = '-fsanitize=undefined -fno-sanitize-recover=all' if 'fsanitize' in first else ''
     cmd = 'g++ -std=gnu++20 -O1 -w %s -I%s/include %s -o %s/_demo_%s' % (san, wt, demo, wt, label)
+    # honour the compile command the author states in the demo's header comment (first one found):
+    # some demos need clang++ (portable overflow path), -DNDEBUG or specific defines
+    mcmd = re.search(r'^//\s*((?:g\+\+|clang\+\+)\s[^\n]*-std=gnu\+\+20[^\n]*)', first, re.M)
+    if mcmd:
+        stated = mcmd.group(1)
+        comp = stated.split()[0]
+        flags = [t for t in stated.split()[1:] if (t.startswith('-D') or t.startswith('-O') or t.startswith('-f') or t == '-DNDEBUG')]
+        if comp == 'clang++' or flags:
+            cmd = '%s -std=gnu++20 -w %s -I%s/include %s -o %s/_demo_%s' % (comp, ' '.join(flags) or '-O1', wt, demo, wt, label)
     rc, o = sh(cmd, wt)
     demo_with = None
     if rc == 0:
